@@ -1557,6 +1557,12 @@ def std_model(I, p, fr, t, args):
                 return d0 if ok else Adt(RES, "Err", {"0": I.call_value(f1, [v], depth)})
             if n == "and_then" and isinstance(f1, FnVal):
                 return I.call_value(f1, [v], depth) if ok else d0
+            if n == "or_else" and isinstance(f1, FnVal):
+                return d0 if ok else I.call_value(f1, [v], depth)
+            if n == "unwrap_or_else" and isinstance(f1, FnVal):
+                return v if ok else I.call_value(f1, [v], depth)
+            if n in ("unwrap_or",) and len(args) > 1:
+                return v if ok else args[1]
     if n in ("into_iter", "iter", "iter_mut"):
         if isinstance(d0, Vec):
             return Iter(list(d0.items))
